@@ -200,6 +200,30 @@ def run_case(case):
             if snapshot_model(model) != m_before:
                 res["violations"].append({"key": "model_modified", "what": f"call {h} ({kind}): the model object was modified (functions/states/choices)"})
             hist_out.setdefault((kind, i), []).append((h, leaf, got))
+        # params objects made from the returned templates (the documented workflow): the template of
+        # one build, filled in place, must not change when the template of ANOTHER build is filled
+        try:
+            _, tA = pipeline.get_lcm_function(model, "solve")
+            _, tB = pipeline.get_lcm_function(model, "simulate")
+
+            def _fill(t_, p_):
+                for fn_, ps_ in p_.items():
+                    if isinstance(ps_, dict) and fn_ != "shocks" and isinstance(t_.get(fn_), dict):
+                        for k_, v_ in ps_.items():
+                            t_[fn_][k_] = v_
+
+            _fill(tA, psets[0])
+            wantA = {fn_: dict(ps_) for fn_, ps_ in psets[0].items() if isinstance(ps_, dict) and fn_ != "shocks"}
+            _fill(tB, psets[1])
+            add("template_pairs_filled_in_place")
+            diffA = [f"{fn_}.{k_}" for fn_, ps_ in wantA.items() for k_, v_ in ps_.items() if isinstance(tA.get(fn_), dict) and tA[fn_].get(k_) != v_]
+            if diffA and any(psets[0][fn_.split('.')[0]][fn_.split('.')[1]] != psets[1][fn_.split('.')[0]][fn_.split('.')[1]] for fn_ in diffA):
+                res["violations"].append({"key": "params_modified_by_another_build", "what": f"filling the template of a second build in place changed the already filled template (params) of the first build at {diffA[:4]}"})
+        except Exception as e:  # noqa: BLE001
+            try:
+                res["violations"].append({"key": pipeline.exc_key(e, "template_pairs"), "what": pipeline.exc_text(e)})
+            except pipeline.HarnessError:
+                add("template_pairs_skipped")
         # value arrays are arguments too: the solve result is handed to the simulate target twice and
         # must still be usable (and unchanged) afterwards
         try:
